@@ -4,8 +4,8 @@
   is a READ at `worldid % <that field>.shape[0]`, in every kernel outside `set_const` — so world w sees exactly slice
   w % n of the field, i.e. what an unbatched Model holding that slice would show it (n = 1 ⇒ index 0).  With NI-world
   (C09) nothing else of the batched field can influence world w.
-  C10_partial: (a) fields consumed on the HOST at put_model/make_data time are outside the table (listed in the
-  evidence as host-consumed); (b) the listed exception is a finding.
+  C10_partial: fields consumed on the HOST at put_model/make_data time are outside the table (listed in the
+  evidence as host-consumed).
 -/
 import MjwVerif.Gen.Graph
 import MjwVerif.Lemmas.NI
@@ -24,10 +24,10 @@ def batchedViolations : List (String × String × String × RW) :=
   (((stepRows.filter (fun a => a.fclass == .modelBatched && !a.ok)).map (fun a => (a.kernel, a.param, a.idx0, a.rw))).eraseDups).map
     (fun t => (name t.1, name t.2.1, showIdx t.2.2.1, t.2.2.2))
 
-/-- **The only deviation in the whole package**: the flex narrow phase reads `opt.ccd_tolerance[0 % shape[0]]`, i.e. always
-    world 0's value (a per-world ccd_tolerance does not take effect for flex collisions) — recorded as a finding. -/
-theorem batched_fields_sliced_partial :
-    batchedViolations = [("collision_flex._flex_narrowphase.kernel", "opt_ccd_tolerance", "other", RW.read)] := by
+/-- **No deviation in the whole package.**  (Before the repair `fix: flex narrowphase always used world 0's
+    ccd_tolerance` this list was `[("collision_flex._flex_narrowphase.kernel", "opt_ccd_tolerance", "other", read)]`:
+    the table found that defect.) -/
+theorem batched_fields_sliced : batchedViolations = [] := by
   decide +kernel
 
 /-- `set_const` kernels write derived Model fields; each write to a batched field must use a modulo index or the
